@@ -113,6 +113,11 @@ Inductive c14_case :=
 (* instantiate + history, tiered-whitelist-merkletree *)
 | CTw (t : table) (now : N) (funds : list coin) (roots : list (list N)) (uris_ok : bool)
       (stages : list stage) (admins : list N) (admins_ok mutable : bool) (inst_ok : bool) (ops : list tw_op)
+(* a first mint on a Merkle minter whose whitelist (flat: tiered = false, SHA-256; tiered:
+   one stage, BLAKE3/16) stores `root`, whitelist active, right payment: sender presents
+   (stage, proof, allocation); wl_limit is the whitelist's per_address_limit *)
+| CMint (t : table) (tiered : bool) (root : list N) (sender : list N) (st al : option N)
+        (proof : list (list N)) (wl_limit : N) (ok : bool)
 (* the string Rust's format! produced for (stage, sender, allocation) *)
 | CLeaf (st : option N) (sender : list N) (al : option N) (rendered : list N).
 
@@ -143,5 +148,10 @@ Definition c14_check (c : c14_case) : bool :=
       | Ok s => inst_ok && tw_steps (tblH t) s ops
       | Err => negb inst_ok
       end
+  | CMint t tiered root sender st al proof lim ok =>
+      let H := tblH t in
+      let L := if tiered then 16%nat else 32%nat in
+      Bool.eqb (minter_wl_check (has_member L H root (leaf st sender al) proof) 0 al lim) ok &&
+      final_hit L H (leaf st sender al) proof
   | CLeaf st a al r => str_eqb (leaf st a al) r
   end.
